@@ -70,6 +70,9 @@ def make_box(cls, b):
         data = np.arange(n) % 3 - 1
         box = mod.Box(b["name"], cod if b.get("dagger") else dom,
                       dom if b.get("dagger") else cod, data)
+    elif b.get("data") is not None and cls in ("monoidal", "rigid", "pro"):
+        box = mod.Box(b["name"], cod if b.get("dagger") else dom,
+                      dom if b.get("dagger") else cod, data=b["data"])
     else:
         box = mod.Box(b["name"], cod if b.get("dagger") else dom,
                       dom if b.get("dagger") else cod)
@@ -79,7 +82,8 @@ def make_box(cls, b):
 
 
 def spec_model(spec):
-    boxes = [M.mbox(b["name"], b["dom"], b["cod"], b.get("kind", "box"),
+    boxes = [M.mbox(b["name"] if b.get("data") is None else "%s#%r" % (b["name"], b["data"]),
+                    b["dom"], b["cod"], b.get("kind", "box"),
                     b.get("dagger", False)) for b in spec["boxes"]]
     return M.mdiagram(spec["dom"], boxes, spec["offsets"])
 
@@ -202,7 +206,9 @@ def gen_monoidal(rng, nboxes, cls="monoidal", atoms=("x", "y"), maxw=6,
         bdom = [list(a) for a in cur[off:off + nin]]
         bcod = [atom() for _ in range(nout)]
         boxes.append({"name": name, "dom": bdom, "cod": bcod, "kind": "box",
-                      "dagger": False})
+                      "dagger": cls in ("monoidal", "rigid") and rng.random() < 0.1})
+        if cls in ("monoidal", "rigid") and name in ("f", "g") and rng.random() < 0.5:
+            boxes[-1]["data"] = rng.randint(0, 1)        # equal name and type, other data
         offsets.append(off)
         cur = cur[:off] + bcod + cur[off + nin:]
         prod = prod[:off] + [k] * nout + prod[off + nin:]
